@@ -67,7 +67,7 @@ def ensure_catalog():
     if os.path.exists(stamp) and open(stamp).read() == key and os.path.exists(dst):
         return
     res = run_tlc("MCLayout", "MCLayout.cfg", use_cache=True)
-    r = sh([sys.executable, os.path.join(HARNESS, "gen.py"), res["out"], dst])
+    r = sh([sys.executable, os.path.join(HARNESS, "gen.py"), res["out"], dst, os.path.join(HARNESS, "neg")])
     if r.returncode != 0:
         raise ToolError("gen.py failed:\n" + r.stdout)
     open(stamp, "w").write(key)
@@ -116,7 +116,7 @@ def run_tlc(module, cfg, use_cache=True, extra_args=(), env_extra=None, timeout=
         m["out"] = out
         return m
     metadir = os.path.join(WORK, "tlc", "meta.%s.%d" % (name, os.getpid()))
-    cmd = ["timeout", str(timeout), "java", "-XX:+UseParallelGC", "-Xmx8g", "-cp", TLA_CP, "tlc2.TLC",
+    cmd = ["timeout", str(timeout), "java", "-XX:+UseParallelGC", "-Xmx8g", "-Xss256m", "-cp", TLA_CP, "tlc2.TLC",
            "-workers", str(workers or TLC_WORKERS), "-metadir", metadir, "-cleanup", "-noGenerateSpecTE",
            "-config", cfg_path] + list(extra_args) + [module + ".tla"]
     env = dict(os.environ)
@@ -204,6 +204,33 @@ def run_replay(cases_file, props, tag, extra=()):
             pr["skip"] = idx + 1
             start(pr)
     return procs
+
+
+def run_negative(prop, only_portable):
+    """Compile-fail conformance: every definition of the negative catalog must be rejected by the macro."""
+    neg = os.path.join(HARNESS, "neg")
+    lock = os.path.join(neg, "Cargo.lock")
+    if not os.path.exists(lock):
+        shutil.copy("/repo/Cargo.lock", lock)
+    index = json.load(open(os.path.join(neg, "index.json")))
+    rep = {"cases_run": 0, "counts": {}, "samples": {}, "sigs": {}, "kept": []}
+    env = dict(os.environ, CARGO_NET_OFFLINE="true")
+    # a positive control first: the crate builds when there is nothing to reject
+    for n in index:
+        if only_portable and not n["portable"]:
+            continue
+        r = sh(["cargo", "check", "--offline", "--quiet", "--bin", n["bin"]], cwd=neg, env=env)
+        rep["cases_run"] += 1
+        rep["counts"]["neg.case"] = rep["counts"].get("neg.case", 0) + 1
+        rep["counts"]["judged." + prop] = rep["counts"].get("judged." + prop, 0) + 1
+        rep["samples"].setdefault("neg." + n["id"], {"id": n["id"], "why": n["why"], "compiler_says": r.stdout.strip().splitlines()[:3]})
+        if r.returncode == 0:
+            sig = "%s|accepted-by-macro|%s|compiles" % (prop, n["id"])
+            v = {"prop": prop, "sig": sig, "detail": "the macro accepts a definition the specification says it must reject: " + n["why"], "case": {"k": "neg", "id": n["id"]}}
+            rep["sigs"][sig] = {"count": 1, "first": v}
+        elif "error" not in r.stdout:
+            raise ToolError("negative build of %s failed without a compiler error:\n%s" % (n["id"], r.stdout[-500:]))
+    return rep
 
 
 def fetch_case(cases_file, index):
@@ -387,6 +414,9 @@ def main(argv):
                 procs = run_replay(st["tlc"]["out"], [prop], "%s.%s" % (prop, os.path.splitext(stp["cfg"])[0]), stp.get("extra", ()))
                 st["replay"] = merge_replay(procs, st["tlc"]["out"], [prop])
                 log("replayed %d cases in %.1fs, %d violation signatures" % (st["replay"]["cases_run"], time.time() - tr, len(st["replay"]["sigs"])))
+            elif stp["type"] == "negative":
+                st["replay"] = run_negative(prop, stp.get("only_portable", False))
+                log("negative catalog: %d definitions must not compile, %d accepted" % (st["replay"]["cases_run"], len(st["replay"]["sigs"])))
             else:
                 raise ToolError("unknown step type " + stp["type"])
             steps.append(st)
